@@ -364,8 +364,8 @@ PROPS['C01'] = {
     'technique': TECH_V + '; ' + TECH_B + '; ' + TECH_K,
     'parts': [V('verus:datahash_verify', 'datahash_verify'), V('verus:boxhash_verify', 'boxhash_verify'),
               K('kani:vec_compare', 'sdk', [H('c01_vec_compare_contract', 'bounded', 'slices of length <= 8')], kind='bounded', timeout=900, functions=[('sdk/src/utils/hash_utils.rs', 'vec_compare')]),
-              B('native:tamper_end_to_end', 'sdk', [T('c01_tamper_signed_assets_end_to_end')], functions=[('sdk/src/claim.rs', 'verify_hash_binding'), ('sdk/src/asset_handlers/jpeg_io.rs', 'make_box_maps')],
-                bounds='IMG_0003.jpg and libpng-test.png signed with data hash and box hash; ~640 mutations outside the signed exclusions (flips, appends, truncations, inserted / deleted segments and chunks)'),
+              B('native:tamper_end_to_end', 'sdk', [T('c01_tamper_signed_assets_end_to_end'), T('c01_tamper_signed_assets_other_formats')], functions=[('sdk/src/claim.rs', 'verify_hash_binding'), ('sdk/src/asset_handlers/jpeg_io.rs', 'make_box_maps')],
+                bounds='IMG_0003.jpg and libpng-test.png signed with data hash and box hash; ~640 mutations outside the signed exclusions (flips, appends, truncations, inserted / deleted segments and chunks); fixtures of 10 further formats (GIF, TIFF, WAV, WebP, MP3, SVG, JXL, FLAC, MP4, HEIC) with ~2450 flips / appends / truncations', timeout=3000),
               B('native:box_hash_verify', 'sdk', [T('c01_box_hash_verify_matches_oracle')], functions=[('sdk/src/assertions/box_hash.rs', 'verify_stream_hash_with_progress')],
                 bounds='1..=4 source boxes over {A,B,C2PA,PNGh}, 2 bytes each, optional gap; 5 groupings; 9 mutation kinds')],
     'trusted_base': TB_VERUS + TB_KANI[1:] + ['the oracle function in kani/box_hash.rs (statement + PNGh legacy rule)'],
